@@ -317,14 +317,14 @@ func (streamSelf *StreamForInterfaceDef) Reverse() *StreamForInterfaceDef {
 func (streamSelf *StreamForInterfaceDef) SortByIndex(fn func(a, b int) bool) *StreamForInterfaceDef {
 	// Keep the old value
 	oldValue := streamSelf.Clone()
-	// Make the target for sorting (original)
-	result := *streamSelf
-	sort.SliceStable(result, fn)
-	// Replace values back
-	*streamSelf = *oldValue
+	// Sort in place (fn refers to the indices of this Stream)
+	sort.SliceStable(*streamSelf, fn)
+	// Take the sorted values & put the old values back into the (possibly shared) storage
+	result := streamSelf.Clone()
+	copy(*streamSelf, *oldValue)
 
 	// Return the sorted target
-	return &result
+	return result
 }
 
 // Sort Sort Stream items by Comparator
